@@ -4,7 +4,58 @@ namespace SafeNet.ArgTable
 
 theorem evalSrc_subst (σ : Valuation) (f : Path → Src) (s : Src) :
     evalSrc σ (s.subst f) = evalSrc (through f σ) s := by
-  cases s <;> simp [Src.subst, evalSrc, through]
+  induction s with
+  | var p => simp [Src.subst, evalSrc, through]
+  | const t => simp [Src.subst, evalSrc]
+  | fold g s ih => simp [Src.subst, evalSrc, ih]
+
+/-! ### Case foldings compose -/
+
+theorem Fold.app_app (f g : Fold) (c : ACh) : f.app (g.app c) = (f.join g).app c := by
+  cases f <;> cases g <;> cases c <;> rfl
+
+theorem Val.fold_fold (f g : Fold) (v : Val) : (v.fold g).fold f = v.fold (f.join g) := by
+  cases v with
+  | bool b => rfl
+  | evm x => rfl
+  | opt o =>
+    cases o with
+    | none => rfl
+    | some a => simp [Val.fold, Function.comp_def, Fold.app_app]
+  | list l => simp [Val.fold, Function.comp_def, Fold.app_app]
+
+theorem evalSrc_norm (σ : Valuation) (s : Src) : evalSrc σ s.norm = evalSrc σ s := by
+  induction s with
+  | var p => rfl
+  | const t => rfl
+  | fold f s ih =>
+    simp only [Src.norm]
+    cases h : s.norm with
+    | var p => simp [evalSrc, ← ih, h]
+    | const t => simp only [evalSrc]; rw [← ih, h]; simp [evalSrc]
+    | fold g t =>
+      simp only [evalSrc]
+      rw [← ih, h]
+      simp only [evalSrc]
+      rw [Val.fold_fold]
+
+theorem guardHolds_norm (σ : Valuation) (g : Guard) : guardHolds σ g.norm = guardHolds σ g := by
+  cases g <;> simp [Guard.norm, guardHolds, evalSrc_norm]
+
+theorem evalEntry_norm (disp : List (String × String)) (σ : Valuation) (e : Entry) :
+    evalEntry disp σ e.norm = evalEntry disp σ e := by
+  obtain ⟨g, fl, v⟩ := e
+  cases v with
+  | none => simp [evalEntry, Entry.norm, guardHolds_norm]
+  | some sr => obtain ⟨s, r⟩ := sr; simp [evalEntry, Entry.norm, guardHolds_norm, evalSrc_norm]
+
+theorem interp_norm (disp : List (String × String)) (T : List Entry) (σ : Valuation) :
+    interp disp (T.map Entry.norm) σ = interp disp T σ := by
+  induction T with
+  | nil => rfl
+  | cons e T ih =>
+    simp only [interp, List.map_cons, List.filterMap_cons] at ih ⊢
+    rw [evalEntry_norm, ih]
 
 theorem guardHolds_subst (σ : Valuation) (f : Path → Src) (g : Guard) :
     guardHolds σ (g.subst f) = guardHolds (through f σ) g := by
